@@ -372,7 +372,7 @@ theorem handle_negotiate (s : Server W I) :
     handle S s (lit "NEGOTIATE_UNIX_FD") = sendError s [] := by
   have f1 : splitCmd (lit "NEGOTIATE_UNIX_FD") = (lit "NEGOTIATE_UNIX_FD", []) :=
     splitCmd_noSpace_all _ (by decide)
-  have f2 : utf8Valid (lit "NEGOTIATE_UNIX_FD") = true := by decide
+  have f2 : utf8Valid (lit "NEGOTIATE_UNIX_FD") = true := utf8Valid_ascii _ (by decide)
   have f3 : parseCmd (lit "NEGOTIATE_UNIX_FD") = .negotiate := by decide
   simp [handle, f1, f2, f3]
 
